@@ -1,7 +1,10 @@
 (* Run/RunC12.v — entry points of the C12 models for the correspondence driver.
    kinds: 1201 parse (tokens, strategy or error); 1202 one glob on an exhaustive path set;
-          1203 a glob set on an exhaustive path set *)
-From RG Require Import Base.Bytes Base.Val Model.Glob Model.GlobSet Spec.GlobSem Spec.GlobSetSem.
+          1203 a glob set on an exhaustive path set;
+          1204 a tree of the documented syntax with alternates (Spec/GlobSyntax.v): its well-formedness verdicts,
+               its text, the tokens theorem parse_documented_syntax_alt assigns to it, and the model parser's
+               answer on that text (the harness side runs the real parser on the text, kind 1201) *)
+From RG Require Import Base.Bytes Base.Val Model.Glob Model.GlobSet Spec.GlobSem Spec.GlobSetSem Spec.GlobSyntax.
 
 Definition decode_opts (n : N) : gopts :=
   mk_gopts (N.testbit n 0) (N.testbit n 1) (N.testbit n 2) (N.testbit n 3).
@@ -114,10 +117,50 @@ Definition run_set (v : val) : val :=
   | None => VL [VN 1%N]
   end.
 
+(* 1204: (opts tree); tree = (apiece ...), apiece = (0 (aitem ...)) | (1), aitem = (0 gitem) | (1 (branch ...)) | (2) a ',' outside braces,
+   branch = (gpiece ...), gpiece = (0 (gitem ...)) | (1),
+   gitem = (0 c) plain | (1 c) escaped | (2) `?` | (3) `*` | (4 ((lo hi) ...)) class *)
+Definition dec_gitem (v : val) : gitem :=
+  match as_N (fld 0 v) with
+  | 0 => IPlain (as_N (fld 1 v))
+  | 1 => IEsc (as_N (fld 1 v))
+  | 2 => IAny
+  | 3 => IStar
+  | _ => IClass (map (fun m => (as_N (fld 0 m), as_N (fld 1 m))) (as_list (fld 1 v)))
+  end%N.
+Definition dec_gpiece (v : val) : gpiece :=
+  match as_N (fld 0 v) with
+  | 0%N => PComp (map dec_gitem (as_list (fld 1 v)))
+  | _ => PDStar
+  end.
+Definition dec_aitem (v : val) : aitem :=
+  match as_N (fld 0 v) with
+  | 0%N => AIt (dec_gitem (fld 1 v))
+  | 2%N => AComma
+  | _ => AAlt (map (fun b => map dec_gpiece (as_list b)) (as_list (fld 1 v)))
+  end.
+Definition dec_apiece (v : val) : apiece :=
+  match as_N (fld 0 v) with
+  | 0%N => APComp (map dec_aitem (as_list (fld 1 v)))
+  | _ => APDStar
+  end.
+Definition run_syntax (v : val) : val :=
+  let o := decode_opts (as_N (fld 0 v)) in
+  let g := map dec_apiece (as_list (fld 1 v)) in
+  let text := render_aglob g in
+  VL [of_bool (aglob_ok g); of_bool (aglob_ok_doc g); of_bytes text;
+      enc_tokens (parser_order (aglob_tokens g));
+      match build o text with
+      | None => VL [VN 1; VN 9]%N
+      | Some (Err e) => enc_error e
+      | Some (Ok ts) => VL [VN 0%N; enc_tokens ts]
+      end].
+
 Definition entry (k : N) (v : val) : option val :=
   match k with
   | 1201%N => Some (run_parse v)
   | 1202%N => Some (run_glob v)
   | 1203%N => Some (run_set v)
+  | 1204%N => Some (run_syntax v)
   | _ => None
   end.
